@@ -8,6 +8,7 @@ import (
 	"os"
 	"os/exec"
 	"path/filepath"
+	"regexp"
 	"runtime"
 	"sort"
 	"strings"
@@ -189,6 +190,17 @@ func runC04(c *Ctx) {
 		// the lifecycle and the tracked positions of an account never depend on the shape of its name
 		shaped := c04Reshape(r, j)
 		tags = append(tags, shaped...)
+		// one case in three of every stream sits on calendar corners (Feb 29 of 1600 / 2000 / 2024, Feb 28 / Mar 1 of 1900 / 2100,
+		// month ends, Dec 31 / Jan 1, the years 0001 and 9999): the order of the days, hence the verdict of the specification, is
+		// untouched; every such date is a date of the calendar and the loader has to take it (a generator of its own, so that
+		// the other choices of the case stay what they were)
+		rc := c.Rng(stream+"/calendar", i)
+		cal := "plain-dates"
+		if rc.Chance(1, 3) {
+			if t := CornerDates(rc, j); t != "" {
+				tags, cal = append(tags, t), t
+			}
+		}
 		if stream == "disorder" {
 			tags = append(tags, "disorder:"+c04Disorder(r, j))
 			if c04Chronological(j) {
@@ -225,7 +237,7 @@ func runC04(c *Ctx) {
 				shp = "bare-AL"
 			}
 		}
-		c.Class(fmt.Sprintf("c04/%s/%s/%s/n%s/%s", stream, verdict, mut, bucket(len(j.Dirs)), shp))
+		c.Class(fmt.Sprintf("c04/%s/%s/%s/n%s/%s/%s", stream, verdict, mut, bucket(len(j.Dirs)), shp, cal))
 		if i < 2 {
 			c.Sample(map[string]any{"journal": text, "impl": implStr, "detail": msg})
 		}
@@ -264,13 +276,33 @@ func runC04(c *Ctx) {
 			ltext, kind := text, "none"
 			if i%3 == 0 {
 				ltext, kind = mutateJournalText(r, text)
+				if rc.Chance(1, 2) {
+					// one date of the text (a directive's or an accrual bound) replaced by a date that is not in the calendar,
+					// or by a corner date that is: Lean's own calendar (FromSyntax.parseDate) decides which
+					if t, k := c04CalendarText(rc, text); k != "" {
+						ltext, kind = t, k
+					}
+				}
 				lp := filepath.Join(dir, fmt.Sprintf("l%d.knut", i%64))
 				os.WriteFile(lp, []byte(ltext), 0o644)
 				path2 := lp
 				implDump := implLoadDump(path2)
 				lin := map[string]any{"journal": ltext, "mutation": kind}
-				c.Tag("loadtext:" + kind)
-				bt.Add(func(m string) { c.Compare(stream, i, "loadtext", lin, implDump, canonPanic(m)) }, "loadtext", Hex(ltext))
+				c.Tag("loadtext:" + strings.SplitN(kind, "=", 2)[0])
+				cli := strings.HasPrefix(kind, "calendar:") && i%24 == 0 && c.KnutBin != ""
+				bt.Add(func(m string) {
+					c.Compare(stream, i, "loadtext", lin, implDump, canonPanic(m))
+					if cli && m == "error" {
+						// the specification's loader rejects the text (the date is not a date): so do check, print and balance
+						cp := filepath.Join(dir, "cal.knut")
+						os.WriteFile(cp, []byte(ltext), 0o644)
+						for _, cmd := range []string{"check", "print", "balance"} {
+							code, stdout, stderr := runKnut(c.KnutBin, 10*time.Second, nil, cmd, cp)
+							c.Monitor(stream, i, "calendar_unloadable_rejected_"+cmd, lin, code == 1 && strings.TrimSpace(stderr) != "" && stdout == "",
+								fmt.Sprintf("knut %s: exit %d on a journal the specification's loader rejects (%s); stdout %q stderr %q", cmd, code, kind, clip(stdout), clip(stderr)))
+						}
+					}
+				}, "loadtext", Hex(ltext))
 			} else {
 				implDump := implLoadDump(path)
 				lin := map[string]any{"journal": ltext}
@@ -341,6 +373,52 @@ func runC04(c *Ctx) {
 	// shared registries under concurrent look-ups; journals dealt over many include files, loaded repeatedly
 	runC04Concur(c)
 	runC04Trees(c)
+}
+
+var c04DateRe = regexp.MustCompile(`[0-9]{4}-[0-9]{2}-[0-9]{2}`)
+
+// c04CalendarText replaces one date of a journal text (the date of a directive or a bound of an @accrue window) by a date
+// at a corner of the calendar: mostly one that does not exist (Feb 29 of a non-leap or century year, Feb 30 / 31, the 31st
+// of a 30-day month, month 00 / 13, day 00 / 32), now and then one that does (Feb 29 of 1600 / 2000 / 2400 / 2024, the
+// last day of a month, the ends of the four-digit range).  The year is the date's own or a corner year.
+func c04CalendarText(r *RNG, text string) (string, string) {
+	locs := c04DateRe.FindAllStringIndex(text, -1)
+	if len(locs) == 0 {
+		return text, ""
+	}
+	loc := Pick(r, locs)
+	year := text[loc[0] : loc[0]+4]
+	var date string
+	kind, own := r.Intn(8), false
+	if ls := strings.LastIndexByte(text[:loc[0]], '\n') + 1; strings.HasPrefix(text[ls:], "@accrue") {
+		// a bound of an accrual window keeps its year (a window of centuries is millions of periods)
+		kind, own = []int{1, 2, 3, 4, 6, 7, 7, 7}[kind], true
+	}
+	switch kind {
+	case 0: // Feb 29 of a year that has none
+		date = Pick(r, []string{"1900", "2100", "2023", "2001", "1700", "1800", "2200", "0100", "0001", "9999", "2300", "1999"}) + "-02-29"
+	case 1:
+		if !own && r.Bool() {
+			year = Pick(r, []string{"2000", "2024", "1600", "2400", "1900", "2023", "0004", "9996"})
+		}
+		date = year + Pick(r, []string{"-02-30", "-02-31", "-02-30"})
+	case 2:
+		date = year + Pick(r, []string{"-04-31", "-06-31", "-09-31", "-11-31"})
+	case 3:
+		date = year + Pick(r, []string{"-13-01", "-00-15", "-00-00", "-13-31", "-20-01", "-99-01"})
+	case 4:
+		date = year + Pick(r, []string{"-01-00", "-01-32", "-12-32", "-10-00", "-02-00", "-03-32", "-12-99", "-08-40"})
+	case 5: // Feb 29 that exists
+		date = Pick(r, []string{"2000", "1600", "2400", "2024", "1996", "2000", "0004", "0400", "9996", "2004"}) + "-02-29"
+	case 6:
+		if !own && r.Bool() {
+			year = Pick(r, []string{"0001", "0099", "1000", "9999", "1900", "2100", "2000"})
+		}
+		date = year + Pick(r, []string{"-01-31", "-03-31", "-04-30", "-05-31", "-06-30", "-07-31", "-08-31", "-09-30", "-10-31", "-11-30", "-12-31", "-01-01", "-02-28", "-03-01"})
+	default: // Feb 29 of the date's own year: the calendar decides
+		date = year + "-02-29"
+	}
+	return text[:loc[0]] + date + text[loc[1]:], "calendar:" + date[4:] + "=" + date
 }
 
 // c04ReopenJournal walks a few asset/liability accounts through long lives: opened, booked in one or two commodities with
